@@ -30,6 +30,9 @@ pub enum KeyShape {
     /// well-formed key document whose `key` is not hex / has odd length (C12)
     NonHex,
     OddLength,
+    /// well-formed key document whose `guid` is a relative path: into a folder that does not exist / that exists (the log folder)
+    GuidPathNew,
+    GuidPathExisting,
 }
 
 #[derive(Default)]
@@ -165,8 +168,13 @@ impl HostState {
         let h = hmacsha::sha256(format!("key-{}-{}", self.seed, self.key_counter).as_bytes());
         let g = hmacsha::hex_lower(&hmacsha::sha256(format!("guid-{}-{}", self.seed, self.key_counter).as_bytes()));
         let guid = format!("{}-{}-{}-{}-{}", &g[0..8], &g[8..12], &g[12..16], &g[16..20], &g[20..32]);
+        let guid = match self.key_shape {
+            KeyShape::GuidPathNew => format!("../exported/{}", guid),
+            KeyShape::GuidPathExisting => format!("../logs/{}", guid),
+            _ => guid,
+        };
         let key = match self.key_shape {
-            KeyShape::Good => hmacsha::hex_lower(&h).to_uppercase(),
+            KeyShape::Good | KeyShape::GuidPathNew | KeyShape::GuidPathExisting => hmacsha::hex_lower(&h).to_uppercase(),
             KeyShape::NonHex => format!("ZZ{}", &hmacsha::hex_lower(&h).to_uppercase()[2..]),
             KeyShape::OddLength => hmacsha::hex_lower(&h).to_uppercase()[1..].to_string(),
         };
